@@ -16,7 +16,7 @@ class C12(vlib.Spec):
                 "C12_fanout_strict_refuted", "C12_unzip_strict_refuted"]
     crate, group, binary = "h_push", "light", "h_push"
     shrink_rounds = 20
-    level = "other"
+    level = "proof"
     imports = "From Coq Require Import List NArith.\nImport ListNotations.\nFrom HV Require Import Push.Model Push.Run."
     trusted_base = ["coqc 8.16.1 kernel (vm_compute used for case evaluation only)",
                     "hand transcription of dfir_pipes/src/push/*.rs into coq/theories/Push/Model.v",
